@@ -39,15 +39,15 @@ def run(ctx):
     r124(ctx)
 
 
-def r121(ctx):
-    ctx.rule("R12.1", "restart: restored velocity controls reach the installed NodeState slot by slot; model copies all "
+def r121(ctx, rid="R12.1"):
+    ctx.rule(rid, "restart: restored velocity controls reach the installed NodeState slot by slot; model copies all "
                       "four fields both ways; update_spec only resets on a spec change")
     p = ctx.prog
     # Node::new_full -> with_log_prefix args derive from the state parameter's own controls
     b = p.fn(f"{NODE}::new_full")
     fv = fnview(ctx, b)
     sites = R.call_blocks(fv, lambda n: n == f"{NS}::with_log_prefix")
-    ctx.floor("R12.1", "with_log_prefix call in new_full", len(sites), 1)
+    ctx.floor(rid, "with_log_prefix call in new_full", len(sites), 1)
     for bi, ln, c in sites:
         for idx, fld in ((1, "velocity_control"), (2, "fee_velocity_control")):
             e = fv.expr(c.args[idx])
@@ -55,7 +55,7 @@ def r121(ctx):
             other = "fee_velocity_control" if fld == "velocity_control" else "velocity_control"
             crossed = any(x[0] == "field" and x[3] == other and x[2].endswith("NodeState") for x in subexprs(e)) and \
                 not any(x[0] == "field" and x[3] == fld and x[2].endswith("NodeState") for x in subexprs(e))
-            ctx.ob("R12.1", ok and not crossed, f"{b.name}/keeps/{fld}",
+            ctx.ob(rid, ok and not crossed, f"{b.name}/keeps/{fld}",
                    f"Node::new_full installs `{render(e)[:140]}` as {fld}; the control restored from the store "
                    f"(state.{fld}) is discarded, so a restart resets the amount already counted",
                    where=f"{b.file}:{ln}", sample=f"{fld} <- state.{fld} (update_spec'd)")
@@ -64,23 +64,23 @@ def r121(ctx):
         fb = p.fn(f"{NS}::{fn}")
         fvv = fnview(ctx, fb)
         aggs = [(bb, bi, si, s) for (bb, bi, si, s) in R.constructions(p, NS) if bb is fb]
-        ctx.floor("R12.1", f"NodeState literal in {fn}", len(aggs), 1)
+        ctx.floor(rid, f"NodeState literal in {fn}", len(aggs), 1)
         for bb, bi, si, s in aggs:
             vals = dict(zip(s.rv.a[3], s.rv.ops))
             for fld in ("velocity_control", "fee_velocity_control"):
                 e = fvv.expr(vals[fld])
                 ok = render(strip_ref(e)) == fld
-                ctx.ob("R12.1", ok, f"{fb.name}/slot/{fld}",
+                ctx.ob(rid, ok, f"{fb.name}/slot/{fld}",
                        f"NodeState::{fn} fills {fld} from `{render(e)[:100]}`", where=f"{fb.file}:{s.line}",
                        sample=f"{fld} <- parameter {fld}")
     # persistence: get_nodes passes the entry's controls in the right positions
     gn = [b2 for b2 in p.bodies.values() if b2.d.krate == "vls_persist" and b2.name.endswith("::get_nodes")
           and "KVVPersister" in b2.name]
-    ctx.floor("R12.1", "KVVPersister::get_nodes", len(gn), 1)
+    ctx.floor(rid, "KVVPersister::get_nodes", len(gn), 1)
     for g in gn:
         gv = fnview(ctx, g)
         rs = R.call_blocks(gv, lambda n: n == f"{NS}::restore")
-        ctx.floor("R12.1", "NodeState::restore call in get_nodes", len(rs), 1)
+        ctx.floor(rid, "NodeState::restore call in get_nodes", len(rs), 1)
         rb = p.fn(f"{NS}::restore")
         pnames = [rb.local_name(i + 1) for i in range(rb.argc)]
         for bi, ln, c in rs:
@@ -88,7 +88,7 @@ def r121(ctx):
                 i = pnames.index(fld)
                 e = gv.expr(c.args[i])
                 ok = any(x[0] == "field" and x[3] == fld for x in subexprs(e))
-                ctx.ob("R12.1", ok, f"{g.name}/restore-arg/{fld}",
+                ctx.ob(rid, ok, f"{g.name}/restore-arg/{fld}",
                        f"get_nodes passes `{render(e)[:120]}` as NodeState::restore's {fld}", where=f"{g.file}:{ln}",
                        sample=f"{fld} <- state_entry.{fld}")
     # model <-> core field copies
@@ -106,10 +106,10 @@ def r121(ctx):
                         e = fvv.expr(op)
                         ok = any(x[0] == "field" and x[3] == fname for x in subexprs(e)) or \
                             render(peel(e)).endswith("." + fname)
-                        ctx.ob("R12.1", ok, f"{fb.name}/field/{fname}",
+                        ctx.ob(rid, ok, f"{fb.name}/field/{fname}",
                                f"velocity control conversion copies `{render(e)[:80]}` into {fname}",
                                where=f"{fb.file}:{s.line}", sample=f"{fname} <- v.{fname}")
-        ctx.floor("R12.1", f"aggregate in {frm[-60:]}", n, 1)
+        ctx.floor(rid, f"aggregate in {frm[-60:]}", n, 1)
     # NodeStateEntry::from(&NodeState) reads both controls
     # update_spec: reset only when !spec_matches
     ub = p.fn(f"{VC}::update_spec")
@@ -117,14 +117,14 @@ def r121(ctx):
     ws = [(bi, s.line) for bi in uv.live_blocks() for s in ub.stmts(bi)
           if any(isinstance(pr, tuple) and pr[0] == "f" and pr[2] in ("buckets", "start_sec", "limit") and
                  pr[1].endswith("VelocityControl") for pr in s.place.proj)]
-    ctx.floor("R12.1", "writes in update_spec", len(ws), 2)
+    ctx.floor(rid, "writes in update_spec", len(ws), 2)
     me = set()
     for bi, c in ub.calls():
         if c.callee and c.callee.name == f"{VC}::spec_matches":
             me |= uv.result_edges(bi, c, "ok")
     live = uv.reach(0, cut_edges=uv.result_edges(*[(bi, c) for bi, c in ub.calls() if c.callee and c.callee.name == f"{VC}::spec_matches"][0], "err")) if me else set(range(uv.n))
     bad = [w for w in ws if w[0] in live]
-    ctx.ob("R12.1", bool(me) and not bad, f"{ub.name}/reset-only-on-change",
+    ctx.ob(rid, bool(me) and not bad, f"{ub.name}/reset-only-on-change",
            "update_spec clears the counted buckets even when the spec is unchanged (every restart would reset the window)",
            where=f"{ub.file}:{ub.line}", sample="bucket reset unreachable when spec_matches")
 
